@@ -62,6 +62,14 @@ func jsonRoundTrip(r *ev.Run, c *ev.Case, a *message.Attributes) {
 	}
 	r.Nontrivial("json:" + text)
 	r.Count("json round trips equal", 1)
+	// the caller owns what the decoder returned: writing through it must not show in any later decode
+	if b.TouchlessSudo != nil {
+		b.TouchlessSudo.Hosts, b.TouchlessSudo.Time, b.TouchlessSudo.IsFirefighter = "scribbled-by-caller", 4242, !b.TouchlessSudo.IsFirefighter
+	}
+	for k := range b.Exts {
+		b.Exts[k] = "scribbled-by-caller"
+	}
+	b.Username = "scribbled"
 }
 
 func js(v any) string { b, _ := json.Marshal(v); return string(b) }
@@ -271,6 +279,10 @@ func legacyText(r *ev.Run, c *ev.Case) {
 		default:
 			toks = append(toks, k+"="+v)
 		}
+	}
+	// a line whose FIRST word happens to be a complete JSON value is still a legacy line as a whole
+	if c.Rand.Intn(6) == 0 && len(toks) > 0 {
+		toks = append([]string{[]string{"null", "{}", "true", "0", `"x"`, "[]", `{"username":"u","hostname":"h","sshClientVersion":"8.1"}`, "-1.5e3"}[c.Rand.Intn(8)]}, toks...)
 	}
 	seps := []string{" ", "  ", " \t", "\t ", "   ", " \n "}
 	var sb strings.Builder
